@@ -48,8 +48,9 @@ def sig_of(t, bad, l):
         out = bytes(bad["obs"]["out"])
         sig["eof"] = bad["obs"]["eof"]
         sig["status_line"] = out.split(b"\r\n", 1)[0].decode("latin1")[:40]   # display only
-        sig["has_cl"] = b"\r\nContent-Length:" in out
-        sig["has_te"] = b"\r\nTransfer-Encoding:" in out
+        head = out.split(b"\r\n\r\n", 1)[0]
+        sig["has_cl"] = b"\r\nContent-Length:" in head
+        sig["has_te"] = b"\r\nTransfer-Encoding:" in head
     return sig
 
 
